@@ -120,6 +120,7 @@ def worker_main(pid, tier, seed, k, n, outfile):
                     return mon.DISABLE
                 q = os.path.basename(code.co_filename)[:-3] + '.' + code.co_qualname
                 entered[q] = entered.get(q, 0) + 1
+                return mon.DISABLE          # the set of entered functions is what is needed: first entry only, no further cost
 
             mon.register_callback(1, mon.events.PY_START, on_start)
             mon.set_events(1, mon.events.PY_START)
@@ -132,7 +133,6 @@ def worker_main(pid, tier, seed, k, n, outfile):
                 sys.monitoring.set_events(1, 0)
             except Exception:
                 pass
-            sh.notes['package functions entered per shard (calls, last shard shown)'] = dict(sorted(entered.items(), key=lambda kv: -kv[1])[:80])
             sh.sets['package functions entered'] = set(entered)
     sh.notes['wall_s_%s' % k] = round(time.time() - t0, 2)
     with open(outfile, 'wb') as f:
